@@ -151,49 +151,66 @@ def mutate_attr(
     live = inplace or bool(metadata and metadata.do_not_copy)
     saved_state = dict(obj.__dict__) if live and will_invalidate else None
 
-    # Perform actual mutation
     # (A write to a private copy of a frozen instance may run user code, such
     # as a property setter that stores the value in some other attribute of the
-    # instance; that code acts under the same licence.)
-    licensed = bool(
-        (force or private_copy)
-        and metadata
-        and metadata.frozen
-        and "__spec_class_initializing__" not in getattr(obj, "__dict__", {})
-    )
-    if licensed:
-        obj.__dict__["__spec_class_initializing__"] = True
-    try:
-        getattr(obj.__setattr__, "__raw__", setattr)(obj, attr, value)
-    except AttributeError as e:
-        if (
-            e.args
-            in (  # Let's make this error less obtuse.
-                ("can't set attribute",),  # Python <3.10
-                ("can't set attribute 'x'",),  # Python ==3.10
-            )
-            or e.args
-            and "object has no setter" in e.args[0]  # Python >=3.11
-        ):
-            raise AttributeError(
-                f"Cannot set `{obj.__class__.__name__}.{attr}` to `{value}`. Is this a property without a setter?"
-            ) from e
-        raise
-    finally:
-        if licensed:
-            obj.__dict__.pop("__spec_class_initializing__", None)
-
-    # Invalidate any caches depending on this attribute
-    if will_invalidate:
+    # instance, or the re-defaulting of dependants; that code acts under the
+    # same licence as the write itself.)
+    with _licensed(
+        obj,
+        enabled=bool(
+            (force or private_copy)
+            and metadata
+            and metadata.frozen
+            and attr != "__spec_class_initializing__"
+        ),
+    ):
+        # Perform actual mutation
         try:
-            invalidate_attrs(obj, attr, metadata.invalidation_map_for(type(obj)))
-        except BaseException:
-            if saved_state is not None:
-                obj.__dict__.clear()
-                obj.__dict__.update(saved_state)
+            getattr(obj.__setattr__, "__raw__", setattr)(obj, attr, value)
+        except AttributeError as e:
+            if (
+                e.args
+                in (  # Let's make this error less obtuse.
+                    ("can't set attribute",),  # Python <3.10
+                    ("can't set attribute 'x'",),  # Python ==3.10
+                )
+                or e.args
+                and "object has no setter" in e.args[0]  # Python >=3.11
+            ):
+                raise AttributeError(
+                    f"Cannot set `{obj.__class__.__name__}.{attr}` to `{value}`. Is this a property without a setter?"
+                ) from e
             raise
 
+        # Invalidate any caches depending on this attribute
+        if will_invalidate:
+            try:
+                invalidate_attrs(obj, attr, metadata.invalidation_map_for(type(obj)))
+            except BaseException:
+                if saved_state is not None:
+                    obj.__dict__.clear()
+                    obj.__dict__.update(saved_state)
+                raise
+
     return obj
+
+
+@contextlib.contextmanager
+def _licensed(obj: Any, enabled: bool = True):
+    """
+    Let the code that runs inside this block write to `obj` even if its class is
+    frozen (as the constructor may). The licence is withdrawn afterwards, unless
+    it was already held when the block was entered.
+    """
+    state = getattr(obj, "__dict__", None) if enabled else None
+    granted = isinstance(state, dict) and "__spec_class_initializing__" not in state
+    if granted:
+        state["__spec_class_initializing__"] = True
+    try:
+        yield
+    finally:
+        if granted:
+            state.pop("__spec_class_initializing__", None)
 
 
 def invalidate_attrs(
